@@ -5,6 +5,7 @@ mod eng_client;
 mod eng_gpu;
 mod eng_server;
 mod eng_session;
+mod eng_valid;
 mod feops;
 mod rec;
 mod wire;
@@ -36,7 +37,9 @@ fn main() {
     }
     let out = arg(&args, "--out").expect("--out");
     // panics in code under test are data: keep the default hook quiet
-    std::panic::set_hook(Box::new(|_| {}));
+    if std::env::var("VH_DEBUG").is_err() {
+        std::panic::set_hook(Box::new(|_| {}));
+    }
     let mut trace = Trace::create(&out);
     match engine {
         "server" => {
@@ -46,6 +49,11 @@ fn main() {
         "bereq" => {
             let cases = read_cases(&arg(&args, "--cases").expect("--cases"));
             eng_bereq::run(&cases, &mut trace, seed);
+        }
+        "valid" => {
+            let cases = read_cases(&arg(&args, "--cases").expect("--cases"));
+            let n: usize = arg(&args, "--random").and_then(|s| s.parse().ok()).unwrap_or(0);
+            eng_valid::run(&cases, &mut trace, seed, n);
         }
         "gpu" => {
             let cases = read_cases(&arg(&args, "--cases").expect("--cases"));
